@@ -200,6 +200,7 @@ func rootAction(c *cli.Context) (err error) {
 	if err != nil {
 		return err
 	}
+	defer taskRunner.Finish()
 
 	targets := c.Args().Slice()
 	if len(targets) > 0 {
